@@ -210,12 +210,11 @@ func CheckModule(mpath, version string) (valid bool, why, unspec string) {
 			unspec = "gopkg-incompatible"
 		}
 		if n == "1" && strings.HasPrefix(version, "v0.0.0-") {
-			unspec = "gopkg-v1-pseudo-v0"
+			// documented with PathMajorPrefix: MatchPathMajor "accepts a 'v0.0.0-' prefix for a '.v1'
+			// pathMajor, even though that pathMajor implies 'v1' tagging" (with or without -unstable)
+			return true, "", unspec
 		}
 		if major != "v"+n {
-			if unspec == "gopkg-v1-pseudo-v0" {
-				return true, "", unspec
-			}
 			return false, "major-mismatch", unspec
 		}
 		return true, "", unspec
